@@ -18,6 +18,8 @@ func (e *Engine) newFuncCtx(u *Unit, fn *ssa.Function, con *Contract, pkgPath st
 	fc.inlineStack = map[*ssa.Function]bool{}
 	fc.freshRefs = map[string]bool{}
 	fc.boxed = map[string]string{}
+	fc.cellPrefixes = map[string]bool{}
+	fc.afterHit = map[*AtCall]int{}
 	fc.model = "int"
 	fc.strmode = "opaque"
 	if con != nil {
@@ -105,7 +107,8 @@ func (fc *FuncCtx) verifyBody(short string) {
 	// parameters
 	params := fn.Params
 	names := []string{}
-	if con.Recv != nil {
+	if con.Recv != nil && !strings.Contains(con.Key, "$") {
+		// (the receiver of a closure's enclosing method is a free variable of the closure, not a parameter)
 		names = append(names, con.Recv.Name)
 	}
 	for _, p := range con.Params {
@@ -229,6 +232,9 @@ func (fc *FuncCtx) verifyBody(short string) {
 	}
 	// clause vacuity: every at-call / loop clause must have attached to code
 	for _, ac := range con.AtCalls {
+		if ac.After && fc.afterHit[ac] == 0 {
+			fc.driftf(fr, "`after call %s` clause attached to no call site", ac.Callee)
+		}
 		if ac.Assert != nil && fc.clauseHit[ac.Assert] == 0 {
 			fc.driftf(fr, "`at call %s` clause attached to no call site", ac.Callee)
 		}
